@@ -29,7 +29,8 @@ class Injected(Exception):
 
 
 FAIL_TYPES = {"Injected": Injected, "KeyError": KeyError, "ValueError": ValueError, "AttributeError": AttributeError,
-              "LookupError": LookupError, "RuntimeError": RuntimeError, "OSError": OSError, "IndexError": IndexError}
+              "LookupError": LookupError, "RuntimeError": RuntimeError, "OSError": OSError, "IndexError": IndexError,
+              "StopIteration": StopIteration, "StopAsyncIteration": StopAsyncIteration, "AssertionError": AssertionError}
 
 
 def reset(fail_at=None, fail_type="Injected"):
